@@ -897,6 +897,16 @@ func runCase(r *ev.Recorder, c tcase) (nontrivial bool, obs observation, err err
 	if c.badPayload() {
 		return true, obs, fmt.Errorf("update answered %d although a part of its payload cannot be loaded (%s): it was neither rejected nor applied as a whole; files now [%s]", obs.Status, c.badPart(), fpString(after))
 	}
+	// ... /apply_flows replaces the whole configuration: a file of the old one that the payload does not carry is
+	// gone afterwards (the user metrics file is the one such file outside the flow / quota directories); left on
+	// disk it makes the running configuration the new flows with the old metrics - neither configuration as a whole
+	if c.Endpoint == "/apply_flows" && c.Metrics == "" {
+		if _, was := before["metrics_user.yaml"]; was {
+			if _, still := after["metrics_user.yaml"]; still {
+				return true, obs, fmt.Errorf("update answered %d (/apply_flows replaces the whole configuration) but the user metrics file of the old configuration is still on disk although the payload carries none (injected fault fired: %v): files now [%s]", obs.Status, obs.FaultFired, fpString(after))
+			}
+		}
+	}
 	// ... and the running flows are exactly those of the files now on disk, and those are the documented result
 	want := behaviourOf(c.expectedAfterSuccess())
 	if !eqMap(behAfter, want) {
@@ -963,8 +973,15 @@ func TestFaultEnumeration(t *testing.T) {
 	total := 0
 	for _, endpoint := range []string{"/configuration", "/apply_flows"} {
 		for pi, pl := range payloads {
+			// with and without a user metrics file in the configuration before the update (the second payload only:
+			// /apply_flows has to remove it, the payload carries no metrics section)
 			for _, inflight := range []bool{false, true} {
-				base := tcase{Initial: initial, Endpoint: endpoint, Flows: pl, InFlight: inflight}
+				initial := initial
+				userMetrics := false
+				if pi == 1 && inflight {
+					initial.UserMetrics, userMetrics = true, true
+				}
+				base := tcase{Initial: initial, Endpoint: endpoint, Flows: pl, InFlight: inflight, UserMet: userMetrics}
 				if pi == 1 {
 					base.Quotas = []payloadFile{{Name: "q.yaml", Text: quotaYAML("Q2", 5)}}
 				}
